@@ -150,7 +150,9 @@ CLAIMS = {
              "distance data unscaled, fallbacks match the method; the pragmatic reader feeds MatrixData from the right matrix fields; every provider indexes "
              "from*size+to; constructors keep their confirmed rejecting checks; unreachable entries become negative in both vectors; the time-aware provider's "
              "timestamp index is collected from the matrices after they are sorted by timestamp (no separately sorted index); the scientific coordinate "
-             "provider subtracts like coordinates (symmetric, zero diagonal by construction). Not decided: interpolation values, bracketing.",
+             "provider subtracts like coordinates (symmetric, zero diagonal by construction); between two matrix timestamps durations follow the linear "
+             "interpolation formula over the (idx-1, idx) bracket with values and timestamps taken from the same matrices, distances take the left matrix "
+             "(canonical expressions). Not decided: numeric values, behaviour of binary_search itself.",
         note="Per-constructor minimal counts of rejecting exits are a reasoned table; local names durations/distances act as role declarations.",
         ref="DESIGN.md §5 C16"),
     "C17": dict(
